@@ -32,6 +32,8 @@ GUARDS.append(("BoxLaws", "MC_BoxLaws_bug_olddistance.cfg", "DistanceDocLaw"))
 INPUT_KEYS = ("f", "T", "N", "ap", "am", "pts", "amounts", "cube", "lo", "hi", "bs", "a1", "a2")
 # record kinds that are entirely outside the statement of C13 (observed only, see spec/BoxJudge.tla)
 OBSERVED_KINDS = ("interval_distance", "null")
+# functions driven inside box1 / box2 records that are outside the statement (a crash inside them is an observation)
+OBSERVED_STAGES = ("init_max_init_dim", "center", "extend_bounding_box_point", "structure_cast_output", "distance_comparison", "structure_cast", "center", "distance", "output")
 
 
 def build():
@@ -112,7 +114,7 @@ def judge_light(ctx, module, cfg, trace_path, nchunks=48, par=8, xmx="1200m", ti
     return sorted(bad, key=lambda b: b["l"])
 
 
-def judge_file(ctx, path, what, rc, out):
+def judge_file(ctx, path, what, rc, out, judge=True):
     lines, tail = vlib.check_trace_file(path)
     crash = [l for l in lines if l.startswith('{"e":"crash"')]
     lines = [l for l in lines if not l.startswith('{"e":"crash"')]
@@ -131,13 +133,25 @@ def judge_file(ctx, path, what, rc, out):
                 payload["record"] = inputs_of(json.loads(re.sub(r",\s*$", "", tail) + "}"))
             except ValueError:
                 pass
-        if op in OBSERVED_KINDS:
+        # a box1 / box2 record batches many functions: the crash line of the harness names the one that ran
+        stage = ""
+        for c in crash:
+            try:
+                stage = json.loads(c).get("stage", "") or stage
+            except ValueError:
+                pass
+        if not stage:
+            fr = re.findall(r"in (?:\w+ )?fcppt::math::box::(\w+)", out)
+            stage = next((x for x in fr if x not in ("object", "detail")), "")
+        if stage:
+            kind = "%s-in-%s" % (kind, stage)
+        if op in OBSERVED_KINDS or stage in OBSERVED_STAGES:
             observe(ctx, op, [kind], tail or "")
         else:
             ctx.reject("C13:%s:%s" % (op, kind), "%s during %s (%s): %s" % (kind, op, what, san.group(1) if san else out[-300:]), payload)
         with open(path, "w") as f:
             f.write("\n".join(lines) + ("\n" if lines else ""))
-    if not lines:
+    if not lines or not judge:
         return lines
     bad = judge_light(ctx, JUDGE, JUDGE_CFG, path)
     ctx.evaluations += len(lines)
@@ -250,12 +264,14 @@ def corruptions(recs):
             mut(r, lambda x: x["cp"].__setitem__(i1, 0), "contains_point")
             mut(r, lambda x: x["cp"].__setitem__(i0, 1), "contains_point")
             mut(r, lambda x: x["corners"].__setitem__(0, x["corners"][1]), "corner_points")
-            mut(r, lambda x: x["center"].__setitem__(0, x["center"][0] + 1), "center")
+            if r["T"] != "f64":
+                mut(r, lambda x: x["center"].__setitem__(0, x["center"][0] + 1), "center")
             mut(r, lambda x: x["epm"][0].__setitem__(0, x["epm"][0][0] + 1), "extend_bounding_box-point")
             mut(r, lambda x: x["shp"][ksh].__setitem__(0, x["shp"][ksh][0] - 1), "shrink")
             mut(r, lambda x: x["stm"][0].__setitem__(0, x["stm"][0][0] - 1), "stretch_absolute")
-            mut(r, lambda x: x["scm"].__setitem__(0, x["scm"][0] + 1), "structure_cast")
-            mut(r, lambda x: x["text"].__setitem__(1, 91), "output-text")
+            if r["T"] != "f64":
+                mut(r, lambda x: x["scm"].__setitem__(0, x["scm"][0] + 1), "structure_cast")
+                mut(r, lambda x: x["text"].__setitem__(1, 91), "output-text")
             cnt[key] = cnt.get(key, 0) + 1
         elif f == "box2" and ne and 1 in r["isx"] and 0 in r["isx"] and 1 in r["con"]:
             i1 = r["isx"].index(1)
@@ -328,7 +344,7 @@ def sensitivity_guard(ctx, lines):
     recs = [json.loads(l) for l in lines if l not in unexpl or l.startswith('{"f":"interval_distance"')]
     cor = corruptions(recs)
     kinds = set((c[0]["f"], c[0]["T"], c[0]["N"]) for c in cor)
-    need = {(f, t, n) for f in ("box1", "box2", "null") for t in ("i32", "u32") for n in (1, 2, 3)} | {("interval_distance", "i32", 1)}
+    need = {(f, t, n) for f in ("box1", "box2", "null") for t in ("i32", "u32", "i64", "f64") for n in (1, 2, 3)} | {("interval_distance", "i32", 1)}
     touched = set()
     for l in unexpl:
         r = json.loads(l)
@@ -362,8 +378,18 @@ def run(ctx):
     # 2. code -> spec
     binary = build()
     tpath = os.path.join(ctx.workdir, "recorded.ndjson")
-    rc, out = vlib.run_harness(binary, ["record", tpath, ctx.tier, ctx.seed], timeout=1600)
-    lines = judge_file(ctx, tpath, "enumeration", rc, out)
+    # every section of the enumeration (type x dimension, random 3-D, observed-only) in its own process: a call that
+    # kills the process (abort, undocumented exception, watchdog) ends only its section; all complete records are judged
+    rc, all_lines = 0, []
+    for sec in list(range(1, 9)) + [10, 11, 12, 13, 9]:
+        spath_k = "%s.sec%d" % (tpath, sec)
+        rc_k, out_k = vlib.run_harness(binary, ["record", spath_k, ctx.tier, ctx.seed, sec], timeout=1600 if thorough else 600)
+        all_lines += judge_file(ctx, spath_k, "enumeration, section %d" % sec, rc_k, out_k, judge=False)
+        rc = rc or rc_k
+        os.unlink(spath_k)
+    with open(tpath, "w") as f:
+        f.write("".join(l + "\n" for l in all_lines))
+    lines = judge_file(ctx, tpath, "enumeration", 0, "")
     npairs = 0
     nunary = 0
     for l in lines:
